@@ -59,6 +59,12 @@ def numericListEntry (win : Bytes) (index : Nat) : NumEntry :=
 expression, up to the first byte that cannot continue an integer) -/
 def tokInt32 (win : Bytes) (t : Token) : Int := (Prim.strtolTo 32 win t.ptr 10).2
 
+/-- the text SCPI_ParamToDouble hands to strtod for a decimal token inside `win` (SCPI_ExprNumericListEntryDouble):
+the conversion starts at the first byte of the token and reads on as long as the text looks like a number
+(`Prim.strtodLen`), whatever length the recogniser gave the token.  The correspondence check compares the double the
+implementation delivers bit-exactly with the correctly rounded value of this text (Drv/Expr.lean, `tokDouble`). -/
+def tokDoubleText (win : Bytes) (t : Token) : Bytes := (win.drop t.ptr).take (Prim.strtodLen win t.ptr)
+
 /-- channelSpec: (pos, result, values stored (at most `cap`), dimensions written?) -/
 def channelSpec (win : Bytes) (cap : Nat) : Nat → Nat → Nat → List Int → Nat × Res × List Int × Option Nat
   | 0, pos, _, vals => (pos, .error, vals, none)
